@@ -18,8 +18,11 @@ raised therefore holds a proper prefix (`List.take j`), possibly `[]` (a 0-byte 
 The codec is a parameter (`Codec`): one function per direction, applied chunk-wise; its law
 `dec (enc a) = a` is a hypothesis of the theorems, never of the model.
 
-Fault model: an exception raised while chunk number `j` (0-based) is being produced, i.e. after exactly
-`j` chunks have reached the output file (`fault = some j`, effective when `j <` number of chunks).
+Fault model: (a) an exception raised while chunk number `j` (0-based) is being produced, i.e. after exactly
+`j` chunks have reached the output file (`fault = some j`, effective when `j <` number of chunks);
+(b) the system call that PUBLISHES the finished temporary file under its final name raises
+(`renameFails` for `file_tmp.rename(file_out)` in `compress_file`, `moveFails` for `shutil.move(.bin_temp, .bin)` in
+`decompress_to_scratch`) — after all chunks, the header and mtscomp's check have succeeded.
 Exceptions are injected, not process crashes between two system calls.
 -/
 namespace IblVerif.FsCompress
@@ -42,6 +45,7 @@ inductive Err
   | fileNotFound   -- FileNotFoundError
   | valueError     -- ValueError
   | runtime        -- RuntimeError: mtscomp's automatic check after compression failed
+  | osError        -- OSError raised by the rename / move that publishes a file (PermissionError, IsADirectoryError, …)
   | corruptHeader  -- `x.ch` does not describe `x.cbin`: mtscomp's behaviour is unspecified (unreachable, see `hdr_consistent`)
   | fault          -- the injected exception
   deriving DecidableEq, Repr
@@ -97,7 +101,7 @@ return file_out
 ```
 Returns the new directory, the reader's new `file_bin` and the outcome. -/
 def compressFile [DecidableEq α] (c : Codec α γ) (s : Fs α γ) (fb : DataName) (keep : Bool)
-    (fault : Option Nat) : Fs α γ × DataName × Outcome :=
+    (fault : Option Nat) (renameFails : Bool := false) : Fs α γ × DataName × Outcome :=
   match fb with
   | .cbin => (s, fb, .err .assertion)                    -- assert not self.is_mtscomp
   | .bin =>
@@ -111,6 +115,7 @@ def compressFile [DecidableEq α] (c : Codec α γ) (s : Fs α γ) (fb : DataNam
         let s1 := { s with cbinTmp := some all }         -- x.cbin_tmp complete
         let s2 := { s1 with ch := some all }             -- x.ch written under its final name
         if all.map c.dec ≠ l then (s2, fb, .err .runtime)   -- check_after_compress
+        else if renameFails then (s2, fb, .err .osError)    -- file_tmp.rename(file_out) raises: the lines below are not reached
         else
           let s3 := { s2 with cbin := s2.cbinTmp, cbinTmp := none }   -- file_tmp.rename(file_out)
           if keep then (s3, .bin, .ok)
@@ -181,37 +186,41 @@ return bin_file
 ```
 `scratch = false` is `scratch_dir=None` (decompress next to the compressed file). -/
 def toScratch [DecidableEq γ] (c : Codec α γ) (s : Fs α γ) (fb : DataName) (scratch : Bool)
-    (fault : Option Nat) : Fs α γ × Outcome :=
+    (fault : Option Nat) (moveFails : Bool := false) : Fs α γ × Outcome :=
   if scratch then
     let s0 := { s with smeta := true }                   -- shutil.copy(meta, scratch/x.meta)
     if s0.sbin.isSome then (s0, .ok)
     else
       match decompressFile c s0 fb true .sbinTemp true fault with
-      | (s1, .ok) => ({ s1 with sbin := s1.sbinTemp, sbinTemp := none }, .ok)   -- shutil.move
+      | (s1, .ok) =>
+        if moveFails then (s1, .err .osError)              -- shutil.move raises: scratch/x.bin_temp stays, complete
+        else ({ s1 with sbin := s1.sbinTemp, sbinTemp := none }, .ok)   -- shutil.move
       | (s1, .err e) => (s1, .err e)
   else
     if s.bin.isSome then (s, .ok)
     else
       match decompressFile c s fb true .binTemp true fault with
-      | (s1, .ok) => ({ s1 with bin := s1.binTemp, binTemp := none }, .ok)      -- shutil.move
+      | (s1, .ok) =>
+        if moveFails then (s1, .err .osError)              -- shutil.move raises: x.bin_temp stays, complete
+        else ({ s1 with bin := s1.binTemp, binTemp := none }, .ok)      -- shutil.move
       | (s1, .err e) => (s1, .err e)
 
 /-- One call on a reader whose `file_bin` is `fb` (any reader: fresh or stale). -/
 inductive Op
-  | compress (fb : DataName) (keep : Bool) (fault : Option Nat)
+  | compress (fb : DataName) (keep : Bool) (fault : Option Nat) (renameFails : Bool)
   | decompress (fb : DataName) (keep : Bool) (overwrite : Bool) (fault : Option Nat)
-  | toScratch (fb : DataName) (scratch : Bool) (fault : Option Nat)
+  | toScratch (fb : DataName) (scratch : Bool) (fault : Option Nat) (moveFails : Bool)
   deriving DecidableEq, Repr
 
 /-- Directory after the call, the reader's `file_bin` after the call, outcome. -/
 def step [DecidableEq α] [DecidableEq γ] (c : Codec α γ) (s : Fs α γ) : Op → Fs α γ × DataName × Outcome
-  | .compress fb keep fault => compressFile c s fb keep fault
+  | .compress fb keep fault rf => compressFile c s fb keep fault rf
   | .decompress fb keep overwrite fault =>
     match decompressFile c s fb keep .bin overwrite fault with
     | (s', .ok) => (s', (if keep then fb else .bin), .ok)     -- self.file_bin = kwargs["out"]
     | (s', .err e) => (s', fb, .err e)
-  | .toScratch fb scratch fault =>
-    let r := toScratch c s fb scratch fault
+  | .toScratch fb scratch fault mf =>
+    let r := toScratch c s fb scratch fault mf
     (r.1, fb, r.2)
 
 /-- Directory after a sequence of calls (each one made by some reader, with or without a fault). -/
@@ -291,6 +300,13 @@ def Op.inScope : Op → Prop
   | .decompress _ _ _ fault => fault = none
   | _ => True
 
+/-- No failure of the rename in `compress_file`.  (`x.ch` is written under its final name by mtscomp BEFORE the
+rename: when the rename then fails next to an older `x.cbin` of another content, `x.ch` no longer describes that
+`x.cbin`.  Only the header-consistency statements need this restriction.) -/
+def Op.renameOk : Op → Prop
+  | .compress _ _ _ rf => rf = false
+  | _ => True
+
 instance : DecidablePred Op.inScope := fun o => by
   cases o <;> simp only [Op.inScope] <;> infer_instance
 
@@ -330,14 +346,17 @@ def Event.inScope : Event α → Prop
   | .call o => o.inScope
   | .rewrite _ => True
 
+def Event.renameOk : Event α → Prop
+  | .call o => o.renameOk
+  | .rewrite _ => True
+
 /-- The invariant of histories with rewrites: `x.bin`, when present, has the current content; every other
 published file is absent or the complete image of SOME version (possibly a stale one); the header describes the
-compressed file; and the CURRENT content is held by a complete file. -/
+compressed file whenever the current content is held by it; and the CURRENT content is held by a complete file. -/
 structure Versioned (c : Codec α γ) (g : Hist α γ) : Prop where
   cur_mem : g.cur ∈ g.versions
   bin : g.fs.bin = none ∨ g.fs.bin = some g.cur
   cbin : g.fs.cbin = none ∨ ∃ v ∈ g.versions, g.fs.cbin = some (v.map c.enc)
-  hdr : g.fs.cbin.isSome → g.fs.ch = g.fs.cbin
   sbin : g.fs.sbin = none ∨ ∃ v ∈ g.versions, g.fs.sbin = some v
   held : g.fs.bin = some g.cur ∨ (g.fs.cbin = some (g.cur.map c.enc) ∧ g.fs.ch = some (g.cur.map c.enc))
 
